@@ -37,7 +37,10 @@ PatU == <<
     H(<<"[", ":", ":", "A", "]">>),                             \* 16  [::A]       upper-case hex
     H(<<"{", "b", ",", "c", "}", ".", "a", ".", "i", "o">>),    \* 17  {b,c}.a.io  alternatives
     H(<<"?", ".", "a", ".", "i", "o">>),                        \* 18  ?.a.io      any one character
-    H(<<"[", "b", "c", "]", ".", "a", ".", "i", "o">>)          \* 19  [bc].a.io   character class
+    H(<<"[", "b", "c", "]", ".", "a", ".", "i", "o">>),         \* 19  [bc].a.io   character class
+    HP(<<"*", ".", "a", ".", "i", "o">>, <<"8", "0">>),         \* 20  *.a.io:80   wildcard with explicit default port
+    HP(<<"*", ".", "a", ".", "i", "o">>, <<"4", "4", "3">>),    \* 21  *.a.io:443
+    HP(<<"*", ".", "a", ".", "i", "o">>, <<"8", "0", "8", "0">>) \* 22  *.a.io:8080
 >>
 \* route paths
 PathU == <<
@@ -70,7 +73,9 @@ HostU == <<
     H(<<"[", ":", ":", "a", "]">>),                             \* 16  [::a]
     HP(<<"[", ":", ":", "A", "]">>, <<"8", "0">>),              \* 17  [::A]:80
     H(<<"c", ".", "a", ".", "i", "o">>),                        \* 18  c.a.io
-    H(<<"d", ".", "a", ".", "i", "o">>)                         \* 19  d.a.io
+    H(<<"d", ".", "a", ".", "i", "o">>),                        \* 19  d.a.io
+    HP(<<"b", ".", "a", ".", "i", "o">>, <<"8", "0", "8", "0">>), \* 20  b.a.io:8080
+    HP(<<"B", ".", "a", ".", "i", "o">>, <<"8", "0">>)          \* 21  B.a.io:80
 >>
 \* request paths
 ReqPathU == <<
@@ -97,7 +102,7 @@ RouteIds == {i \in 1..(Len(PatU) * NPath) : RPat(i) \in PatSel /\ RPath(i) \in P
 MCAllPats  == 1..Len(PatU)
 MCAllPaths == 1..Len(PathU)
 MCAllHosts == 1..Len(HostU)
-MCCorePats  == {1, 2, 3, 4, 6, 8, 10, 13, 17, 18}
+MCCorePats  == {1, 2, 3, 4, 6, 8, 10, 13, 17, 18, 20}
 MCCorePaths == {1, 2, 4, 6}
 MCMiniPats  == {1, 2, 3, 4, 6, 13, 17}
 MCMiniPaths == {1, 2, 4, 6}
@@ -209,6 +214,7 @@ GlobFacts ==
     /\ GlobMatch(P(7), v6) /\ ~GlobMatch(P(13), v6)          \* as a glob "[::1]" is a character class ...
     /\ MatchKind(P(13), v6, TRUE) = "exact" /\ MatchKind(P(13), v6, FALSE) = "exact"   \* ... but it IS the host [::1]
     /\ MatchKind(P(17), b, TRUE) = "wild" /\ MatchKind(P(17), b, FALSE) = "no"
+    /\ LitSuffixLen(P(20)) = 5 /\ LitSuffixLen(HostStr(PatU[20], TRUE)) = 8 /\ LitSuffixLen(HostStr(PatU[22], FALSE)) = 10
     /\ LitSuffixLen(P(17)) = 5 /\ LitSuffixLen(P(4)) = 5 /\ LitSuffixLen(P(3)) = 3 /\ LitSuffixLen(P(7)) = 0 /\ LitSuffixLen(P(2)) = 4
 ASSUME GlobFacts
 \* the universe is not vacuous: route identities are distinct
